@@ -123,4 +123,33 @@ def filterMatches (fa fe fn app entry node : Str) : Bool :=
   else if fn = [] then fa == app && fe == entry
   else fa == app && fe == entry && fn == node
 
+/-- a workload record as the stores see it: created under (app, entry) with the random ident,
+on `node`, with id `id` and labels -/
+structure WL where
+  app : Str
+  entry : Str
+  node : Str
+  id : Str
+  ident : Str
+  labels : List (String × String) := []
+
+/-- the key `AddWorkload`/`SetWorkloadStatus` write: application and entrypoint are *parsed back*
+from the workload name (`utils.ParseWorkloadName(workload.Name)`), not taken from the request -/
+def storedKey (root : Str) (w : WL) : Option Str :=
+  match parseName (makeName w.app w.entry w.ident) with
+  | some (a, e, _) => some (workloadKey root a e w.node w.id)
+  | none => none
+
+/-- `ListWorkloads(app, entry, node, limit, labels)` on a store holding `ws` (etcd: prefix range in
+key order, cut at `limit`, then the label filter) — `sel` is the backend's key selection -/
+def listQuery (sel : Str → Str → Bool) (root : Str) (ws : List WL) (fa fe fn : Str) (limit : Nat)
+    (labels : List (String × String)) : List WL :=
+  let hit := ws.filter fun w => match storedKey root w with
+    | some k => sel (listPrefix root fa fe fn) k
+    | none => false
+  (applyLimit limit hit).filter fun w => labelsFilter w.labels labels
+
+def etcdSel (pre k : Str) : Bool := hasPrefix pre k
+def redisSel (pre k : Str) : Bool := globMatch (pre ++ ['*']) k
+
 end Eru.Misc.Keys
